@@ -363,6 +363,15 @@ def run_shard(cfg):
                 if idx % of == k:
                     rec.rank = 10**6 + idx
                     check_xpath(rec, tcs, steps, text)
+    # a tuple of 300 elements: three-digit indices on both sides of 256 (the range of CPython's shared small integers)
+    huge = [TreeCase(I(opt=L(), items=[L(), S()] * 150, lst=[S(), L()]))]
+    for steps in list(RX.paths(1, [None, "items", "lst"], [None, 0, 10, 100, 255, 256, 257, 258, 299], [None, "GL", "GS"])) + \
+            list(RX.paths(2, [None, "items"], [None, 257], [None, "GL", "GI"])):
+        for text in dict.fromkeys([RX.render(steps)] + ([RX.render(steps, first_relative=True)] if steps[0][0] else [])):
+            idx += 1
+            if idx % of == k:
+                rec.rank = 3 * 10**6 + idx
+                check_xpath(rec, huge, steps, text, family="huge")
     # the three-step family again on EVERY tree with <= 4 nodes (the shaped trees above have few heterogeneous chains: a
     # step that must be the direct parent of the next one is only told apart from 'any ancestor' on chains of 4)
     small = [TreeCase(d) for n in range(1, 5) for d in U.trees(n)]
@@ -401,6 +410,7 @@ def replay(case, cfg):
 
         N._nodes.clear()
         tcs = [TreeCase(d) for d in shaped()] if case.get("family", "shaped") == "shaped" else [TreeCase(case["tree"])]
+        # (family "huge" and "small" carry their tree in the case)
         check_xpath(rec, tcs, parse_rendered(case["xpath"]), case["xpath"], family=case.get("family", "shaped"))
     elif "text" in case:
         try:
